@@ -8,7 +8,8 @@ Generated space: every placement of <= 3 accesses (reads / writes) of ONE object
   parts       whole object, low slice, high slice, single bit (array kind: element 0, element 1, slice of element 0)
               MO (outputs of ONE multi-output instance, in keyword order, on overlapping / identical / disjoint parts)
   kinds       Signal, Port.input, Port.output, Port.inout, Variable, Temporary (explicit intermediate), Signal[Array]
-  forms       writes as `<<=` / `@=`, `.next` / `.value`, push `^=`, `.push`
+  forms       writes as `<<=` / `@=`, `.next` / `.value`, push `^=`, `.push`, write-formatted target of an inline VHDL statement
+              f"{vhdl:{x} <= {v!r};}" or expression f"{vhdl[T]:{v!r}; {x} <= {v!r}}"; reads plain or `{x!r}` in inline code
   API         every context through std.sequential / std.concurrent or the core cohdl.sequential_context /
               cohdl.concurrent_context (without / with cohdl.reset_pushed())
 rendered to real design files and compiled by the compiler of the current tree.
@@ -56,8 +57,13 @@ def parts_of(kind):
 
 # write forms: wa = augmented assignment (`<<=`, variables `@=`), wn = attribute form (`.next =`, variables `.value =`),
 # wp = push `^=`, wP = push `.push =`; `w` = output actual of an instance.  wa/wn and wp/wP are the same IR statement.
-SIGNAL_FORMS = ["wa", "wn", "wp", "wP"]
-VAR_FORMS = ["wa", "wn"]
+# wi = inline VHDL statement f"{vhdl:{target} <= {src!r};}" (target write-formatted = no `!r`), we = write-formatted target
+# inside an inline VHDL EXPRESSION f"{vhdl[T]:{src!r}; {target} <= {src!r}}" whose value goes to the sink.
+# read forms: r = plain use, ri = read-formatted `{x!r}` in an inline statement, re = in an inline expression.
+SIGNAL_FORMS = ["wa", "wn", "wp", "wP", "wi", "we"]
+VAR_FORMS = ["wa", "wn", "wi", "we"]
+READ_FORMS = ["r", "ri", "re"]
+INLINE_FORMS = ("wi", "we", "ri", "re")
 CANON_FORMS = {"sig": ["wa", "wp"], "var": ["wa"]}
 DEFAULT_API = "sss"  # how the contexts A, B, C are declared: s = std.sequential / std.concurrent,
 #                      c = core cohdl.sequential_context / cohdl.concurrent_context, r = core + cohdl.reset_pushed()
@@ -71,8 +77,14 @@ def is_push(rw):
     return rw in ("wp", "wP")
 
 
+def is_read(rw):
+    return rw[0] == "r"
+
+
 def forms_of(kind, canonical=False):
-    if kind == "tmp":  # an explicit Temporary has no assignment operator in traced code
+    if kind == "tmp":
+        # an explicit Temporary has no assignment operator in traced code.  (Inline code could define it - `{x} := ..` -
+        # but that space is not enumerated: see notes/C07.md, "Temporary defined by inline code in an always block")
         return []
     if kind == "var":
         return CANON_FORMS["var"] if canonical else VAR_FORMS
@@ -83,7 +95,8 @@ def access_types(kind, parts=None, canonical=False):
     out = []
     for part in parts or parts_of(kind):
         for pl in RW_PLACEMENTS:
-            out.append((pl, part, "r"))
+            for f in (["r"] if canonical else READ_FORMS):
+                out.append((pl, part, f))
             for f in forms_of(kind, canonical):
                 out.append((pl, part, f))
         for pl, rw in FIXED_PLACEMENTS.items():
@@ -92,7 +105,7 @@ def access_types(kind, parts=None, canonical=False):
 
 
 HEADER = '''import cohdl
-from cohdl import Bit, BitVector, Port, Signal, Variable, Temporary, Array, Null
+from cohdl import Bit, BitVector, Port, Signal, Variable, Temporary, Array, Null, vhdl
 from cohdl import std
 
 
@@ -157,16 +170,37 @@ def stmt_of(kind, k, acc):
         return f"Sub{w}(x={obj}, y=self.s{k}{WIDTH_SUFFIX[w]})", False
     if pl == "AE":
         return f"self.s{k}{WIDTH_SUFFIX[w]} <<= cohdl.always(~{obj})", False
-    if rw == "r":
-        return f"self.s{k}{WIDTH_SUFFIX[w]} <<= {obj}", False
+    sink = f"self.s{k}{WIDTH_SUFFIX[w]}"
     val = f"self.av{WIDTH_SUFFIX[w]}"
     var = kind in ("var", "tmp")
+    ty = "Bit" if w == 1 else f"BitVector[{w}]"
+    # inline code is raw text: a temporary is a process variable in a sequential body and a signal elsewhere
+    asg = ":=" if (kind == "var" or (kind == "tmp" and pl in ("A", "B", "AF"))) else "<="
+    if rw == "r":
+        return f"{sink} <<= {obj}", False
+    if rw == "ri":
+        return 'f"{vhdl:{%s} <= {%s!r};}"' % (sink, obj), False
+    if rw == "re":
+        return '%s <<= f"{vhdl[%s]:{%s!r}}"' % (sink, ty, obj), False
+    if rw == "wi":
+        return 'f"{vhdl:{%s} %s {%s!r};}"' % (obj, asg, val), False
+    if rw == "we":
+        return '%s <<= f"{vhdl[%s]:{%s!r}; {%s} %s {%s!r}}"' % (sink, ty, val, obj, asg, val), False
     if rw == "wn":
         return f"{obj}.{'value' if var else 'next'} = {val}", False
     if rw == "wP":
         return f"{obj}.push = {val}", False
     op = {"wa": "@=" if var else "<<=", "wp": "^="}[rw]
     return f"{obj} {op} {val}", obj == "x"  # augmented assignment to the closure variable itself
+
+
+def access_order(kind, accs):
+    """(index, access) in statement order: the order of the design, except that the definitions of a Temporary come
+    first (a temporary must be written before it is read within its context)"""
+    idx = list(range(len(accs)))
+    if kind == "tmp":
+        idx.sort(key=lambda k: is_read(accs[k][2]))
+    return [(k, accs[k]) for k in idx]
 
 
 def render(kind, accs, api=DEFAULT_API):
@@ -191,7 +225,7 @@ def render(kind, accs, api=DEFAULT_API):
     nonlocal_in = set()
     if mo:
         lines.append(ind + "SubM(x=self.av, " + ", ".join(f"o{j}={ref}{PART_SUFFIX[a[1]]}" for j, (_, a) in enumerate(mo)) + ")")
-    for k, acc in enumerate(accs):
+    for k, acc in access_order(kind, accs):
         pl = acc[0]
         if pl == "MO":
             continue
@@ -259,7 +293,7 @@ def abstract(kind, accs, api=DEFAULT_API):
     n_mo = sum(1 for pl, _, _ in accs if pl == "MO")
     if n_mo:
         insts.append("inst i1" + " o0" * n_mo)
-    for k, (pl, part, rw) in enumerate(accs):
+    for k, (pl, part, rw) in access_order(kind, accs):
         sink = 2 + k
         if pl == "MO":
             continue
@@ -273,8 +307,10 @@ def abstract(kind, accs, api=DEFAULT_API):
             body["A"] += [f"r0a", f"w{t}a", f"r{t}", f"w{sink}"]
         else:
             a = "a" if pl in ("AA", "BA") else ""
-            if rw == "r":
+            if is_read(rw):
                 body[CTX_OF[pl]] += [f"r0{a}", f"w{sink}{a}"]
+            elif rw == "we":  # the expression also feeds the sink
+                body[CTX_OF[pl]] += [f"r1{a}", f"w0{a}", f"w{sink}{a}"]
             else:
                 body[CTX_OF[pl]] += [f"r1{a}", ("p0" if is_push(rw) else "w0") + a]
                 if is_push(rw) and not a:
@@ -636,10 +672,10 @@ def core_designs(quick=True):
     for kind in KINDS:
         parts = parts_of(kind)
         for a in access_types(kind):
-            if quick and a[2] in ("wn", "wP") and a[1] not in parts[:2]:
+            if quick and a[2] in ("wn", "wP", "ri", "re") and a[1] not in parts[:2]:
                 continue  # the attribute forms are the same IR statement as the operators: two parts suffice
             out.append((kind, (a,), DEFAULT_API))
-            if a[1] == parts[1] and a[0] in CTX_OF:
+            if a[1] == parts[1] and a[0] in CTX_OF and (not quick or a[2] in ("r", "wa", "wp", "wi", "we")):
                 out += [(kind, (a,), v) for v in api_variants((a,))]
         combos = PAIR_COMBOS.get(kind, PAIR_COMBOS[None])
         T = access_types(kind, canonical=True)
@@ -648,14 +684,40 @@ def core_designs(quick=True):
         n_api = {"sig": 2, "pout": 1, "arr": 1}.get(kind, 0) if quick else (4 if kind == "sig" else (2 if signalish else 0))
         for ci, (pa, pb) in enumerate(combos[:n_api]):
             for accs in placement_pairs(kind, writers, pa, pb, both_orders=not quick):
-                out += [(kind, accs, v) for v in api_variants(accs, full=not quick and kind == "sig" and ci < 2)]
+                vs = api_variants(accs, full=not quick and kind == "sig" and ci < 2)
+                out += [(kind, accs, v) for v in (vs[:4] if quick and kind != "sig" else vs)]
         if quick:
-            std_combos = combos[:2] if kind == "sig" else ([] if kind == "pin" else (combos[:1] if kind in ("pinout", "tmp") else combos[1:2]))
+            std_combos = combos[:2] if kind == "sig" else ([] if kind in ("pin", "pinout") else (combos[:1] if kind == "tmp" else combos[1:2]))
             for pa, pb in std_combos:
                 for accs in placement_pairs(kind, T, pa, pb, both_orders=False):
                     if kind not in ("var", "tmp") and not any(is_write(rw) for _, _, rw in accs):
                         continue  # two readers of a signal: covered by the sampled part
                     out.append((kind, accs, DEFAULT_API))
+    return out
+
+
+def inline_designs(quick=True):
+    """an inline-VHDL writer (statement `wi` / expression `we`, every placement) together with every other access in
+    canonical form, with another inline writer and with the instance placements, on disjoint and identical parts"""
+    out = []
+    for kind in KINDS:
+        if kind in ("tmp", "pin"):
+            continue  # Temporary: no inline definitions enumerated; input port: every single write is rejected (singles)
+        combos = PAIR_COMBOS.get(kind, PAIR_COMBOS[None])
+        if quick and kind == "pinout":
+            continue  # same decisions as the output port; thorough tier and random part only
+        combos = (combos[:2] if kind == "sig" else combos[:1] if kind == "arr" else combos[1:2]) if quick else combos[:2 if kind != "sig" else 4]
+        forms = ["wi", "we"] if (kind in ("sig", "var") or not quick) else ["we"]
+        inl = [(pl, f) for pl in RW_PLACEMENTS for f in forms]
+        others = sorted({(pl, rw) for pl, _, rw in access_types(kind, canonical=True)} | set(inl))
+        for ci, (pa, pb) in enumerate(combos):
+            for (pl1, f1) in inl:
+                if quick and kind == "sig" and ci == 1 and f1 == "wi":
+                    continue  # statement form: one part combination in the quick tier
+                for (pl2, rw2) in others:
+                    if kind != "var" and is_read(rw2):
+                        continue  # a reader next to an inline writer of a signal: covered by the sampled part
+                    out.append((kind, canon(((pl1, pa, f1), (pl2, pb, rw2))), DEFAULT_API))
     return out
 
 
@@ -798,12 +860,12 @@ def run(ctx: Ctx):
                 "std.concurrent, core cohdl.sequential_context / concurrent_context without / with reset_pushed()); core set "
                 "(all singles, writer pairs under every API variant, pairs on 1-4 part combinations, one instance with 2-3 "
                 "outputs on whole / disjoint / overlapping / identical parts of one root in every keyword order, alone and with "
-                "another writer) always, then "
+                "another writer; inline-VHDL writers (statement / expression) with every other writer) always, then "
                 "quick: random pairs+triples over all forms and APIs / thorough: all pairs and all triples in canonical forms; "
                 "non-trivial = >= 2 accesses with >= 1 write; distinct = distinct (kind, placement multiset, API variant)")
-    designs = core_designs(ctx.quick) + multi_output_designs(ctx.quick)
+    designs = core_designs(ctx.quick) + multi_output_designs(ctx.quick) + inline_designs(ctx.quick)
     if ctx.quick:
-        designs += [random_design(rng, 2) for _ in range(250)] + [random_design(rng, 3) for _ in range(250)]
+        designs += [random_design(rng, 2) for _ in range(200)] + [random_design(rng, 3) for _ in range(200)]
     else:
         designs += list(all_pairs()) + list(all_triples())
     seen, uniq = set(), []
@@ -815,7 +877,7 @@ def run(ctx: Ctx):
     designs = uniq
     ctx.exhaustive = not ctx.quick
     n_acc = n_rej = n_over = n_mirror = n_mirror_ir = n_counts = 0
-    minimal, n_shrunk = {}, [0]
+    minimal, n_shrunk = {}, collections.Counter()  # at most 6 minimal replays per problem class
     mirror_examples = []
     chunk = 4000
     for lo in range(0, len(designs), chunk):
@@ -838,9 +900,9 @@ def run(ctx: Ctx):
             for cls, text in viol:
                 ctx.dist["violation:" + cls] += 1
                 have = collections.Counter((pl, rw) for pl, _, rw in accs)
-                if any(not (m - have) for m in minimal.get((cls, kind), [])) or n_shrunk[0] >= 10:
+                if any(not (m - have) for m in minimal.get((cls, kind), [])) or n_shrunk[cls] >= 6:
                     continue  # contains an already reported minimal placement of the same class
-                n_shrunk[0] += 1
+                n_shrunk[cls] += 1
                 small = shrink(rec, cls)
                 stext = [t for c, t in violations_of(small) if c == cls][0]
                 minimal.setdefault((cls, kind), []).append(collections.Counter((pl, rw) for pl, _, rw in small["accs"]))
